@@ -1,5 +1,5 @@
 (* C01 - Timed-move prediction equals the firmware step-accumulator recurrence.  Statements only. *)
-From Plotink Require Import Base.Prelude Spec.Firmware Model.EbbCalc Model.EbbCalcRnd Proofs.EbbCalcProofs Proofs.EbbRndProofs Proofs.EbbClosed Corr.C01 Base.Rnd Proofs.RndProofs.
+From Plotink Require Import Base.Prelude Spec.Firmware Model.EbbCalc Model.EbbCalcRnd Proofs.EbbCalcProofs Proofs.EbbRndProofs Proofs.EbbClosed Corr.C01 Base.Rnd Proofs.RndProofs Proofs.TruncFloat.
 Open Scope Z_scope.
 
 (* exact model of move_dist_lt = tick-by-tick recurrence, for all integers and every tick count T >= 1,
@@ -50,6 +50,11 @@ Proof.
   apply C01_rounding_exact; [intros x y; apply round_ne_comp; lia|intros x R; apply round_ne_exact; [lia|exact R]].
 Qed.
 
+(* int(accel / 2) as Python computes it - a binary64 quotient truncated by int() - is the truncating integer quotient the model uses (Z.quot),
+   for the executable round-to-nearest-even and every divisor up to 1024 *)
+Theorem C01_int_half_float : forall n d, 0 < d <= 2 ^ 10 -> Z.abs n <= 2 ^ 40 -> Qtrunc (round_ne 53 (iz n / iz d)) = Z.quot n d.
+Proof. intros n d. apply trunc_rounded_quotient; [intros x R; apply round_ne_exact; [lia|exact R]|intros x y; apply round_ne_mono; lia]. Qed.
+
 Print Assumptions C01_exact.
 Print Assumptions C01_remainder_in_range.
 Print Assumptions C01_closed_form.
@@ -57,3 +62,4 @@ Print Assumptions C01_checker_is_spec.
 Print Assumptions C01_aliases.
 Print Assumptions C01_rounding_exact.
 Print Assumptions C01_rounding_exact_rne.
+Print Assumptions C01_int_half_float.
